@@ -21,6 +21,15 @@
 (* not intercepted), then the core handlers through the middleware (their  *)
 (* outputs pass interceptMessage).                                         *)
 (*                                                                         *)
+(* ROUNDS.  Rounds is a sequence of identity lists: round r is one         *)
+(* decryption trigger with the identity list Rounds[r] (gnosis: one slot;  *)
+(* service: one block's trigger).  The lists of different rounds may       *)
+(* OVERLAP ({A} then {A,B}): shares and keys of an identity that is        *)
+(* already known meet the ON CONFLICT DO NOTHING / "all keys exist" paths. *)
+(* Signatures are per round (gnosis: per slot; service: per identities     *)
+(* hash); the gnosis current trigger is the LAST round the node was        *)
+(* triggered for (current_decryption_trigger has one row per eon).         *)
+(*                                                                         *)
 (* Cryptography is abstracted: every share / signature an honest node      *)
 (* makes is genuine; T distinct shares interpolate to the key ("good").    *)
 (* The code side never assumes this: real BLS shares, real ECDSA           *)
@@ -29,20 +38,26 @@
 (***************************************************************************)
 EXTENDS Integers, Sequences, FiniteSets, SequencesExt, FiniteSetsExt, Bags, TLC
 
-CONSTANTS N, T, Ids, Flavour     \* Ids: sequence of identity names (ordered as on the wire)
+CONSTANTS N, T, Rounds, Flavour     \* Rounds: sequence of identity lists (each ordered as on the wire)
 
 Nodes == 0..(N - 1)
-IdSet == {Ids[k] : k \in DOMAIN Ids}
+RoundIdx == DOMAIN Rounds
+IdsOf(r) == {Rounds[r][k] : k \in DOMAIN Rounds[r]}
+IdSet == UNION {IdsOf(r) : r \in RoundIdx}
 
 SortedSeq(S) == SetToSortSeq(S, <)
 (* SELECT .. ORDER BY keyper_index ASC LIMIT T *)
 FirstT(S) == LET q == SortedSeq(S) IN IF Len(q) <= T THEN q ELSE SubSeq(q, 1, T)
 
-SharesMsg(k) == [t |-> "shares", from |-> k, signers |-> <<>>]
-KeysMsg(k, sg) == [t |-> "keys", from |-> k, signers |-> sg]
+(* r = the round whose identity list the message carries; x = the round the flavour extra was made
+   for (gnosis: slot of the extra; service: = r, the signatures are keyed by the identities hash;
+   0 = no extra) *)
+SharesMsg(k, r) == [t |-> "shares", from |-> k, r |-> r, x |-> IF Flavour = "core" THEN 0 ELSE r, signers |-> <<>>]
+KeysMsg(k, r, x, sg) == [t |-> "keys", from |-> k, r |-> r, x |-> x, signers |-> sg]
 
+(* ptr: gnosis tx pointer as offset from the pointer of the triggers, -1 = never set by a keys message *)
 NodeInit == [shares |-> [id \in IdSet |-> {}], keys |-> [id \in IdSet |-> "none"],
-             sigs |-> {}, cur |-> FALSE, ptr |-> "init"]
+             sigs |-> [r \in RoundIdx |-> {}], cur |-> 0, ptr |-> -1]
 
 ----------------------------------------------------------------------------
 (* Validators.  The fields an honest producer fills are genuine; what is modelled is the
@@ -55,8 +70,9 @@ CoreValidateShares(nd, m) == "accept"
 CoreValidateKeys(nd, m) == "accept"
 
 (* flavour: DecryptionKeySharesHandler.ValidateMessage: extra present, index in range, signature
-   of the sender over (instance, eon, [slot, txpointer,] identities) *)
-FlavourValidateShares(nd, m) == "accept"
+   of the sender over (instance, eon, [slot, txpointer,] identities OF THE MESSAGE): an extra made
+   for another round does not verify *)
+FlavourValidateShares(nd, m) == IF m.x = m.r THEN "accept" ELSE "reject"
 (* flavour: DecryptionKeysHandler.ValidateMessage / ValidateDecryptionKeysSignatures *)
 StrictlyIncreasing(q) == \A a, b \in DOMAIN q : a < b => q[a] < q[b]
 FlavourValidateKeys(nd, m) ==
@@ -65,12 +81,14 @@ FlavourValidateKeys(nd, m) ==
             IF Len(m.signers) # T THEN "reject"
             ELSE IF ~StrictlyIncreasing(m.signers) THEN "reject"
             ELSE IF \E a \in DOMAIN m.signers : m.signers[a] \notin Nodes THEN "reject"
+            ELSE IF m.x # m.r THEN "reject"                     \* signatures of another slot / identity list
             ELSE "accept"
       [] Flavour = "service" ->
             IF Len(m.signers) = 0 THEN "accept"                \* "Allow for empty signatures"
             ELSE IF Len(m.signers) # T THEN "reject"
             ELSE IF ~StrictlyIncreasing(m.signers) THEN "reject"
             ELSE IF \E a \in DOMAIN m.signers : m.signers[a] \notin Nodes THEN "reject"
+            ELSE IF m.x # m.r THEN "reject"
             ELSE "accept"
 
 (* ValidatorRegistry.GetCombinedValidator: all registered validators of the topic, flavour first *)
@@ -88,29 +106,34 @@ ANValidate(m) ==
     ELSE IF Len(m.signers) # T THEN "reject"
     ELSE IF ~StrictlyIncreasing(m.signers) THEN "reject"
     ELSE IF \E a \in DOMAIN m.signers : m.signers[a] \notin Nodes THEN "reject"
+    ELSE IF m.x # m.r THEN "reject"
     ELSE "accept"
 
 ----------------------------------------------------------------------------
 (* Middleware (interceptMessage).  Returns [nd, out] with out a sequence of 0..1 messages. *)
 
-(* interceptDecryptionKeyShares: sign, store own signature, attach the extra *)
+(* interceptDecryptionKeyShares: sign, store own signature, attach the extra.  gnosis: the message is
+   dropped unless the current trigger is the one the message answers (identities hash) *)
 InterceptShares(nd, j, m) ==
     CASE Flavour = "core" -> [nd |-> nd, out |-> <<m>>]
       [] Flavour = "gnosis" ->
-            IF ~nd.cur THEN [nd |-> nd, out |-> <<>>]          \* unknown decryption trigger: dropped
-            ELSE [nd |-> [nd EXCEPT !.sigs = @ \cup {j}], out |-> <<m>>]
-      [] Flavour = "service" -> [nd |-> [nd EXCEPT !.sigs = @ \cup {j}], out |-> <<m>>]
+            IF nd.cur # m.r THEN [nd |-> nd, out |-> <<>>]     \* unknown / overridden decryption trigger: dropped
+            ELSE [nd |-> [nd EXCEPT !.sigs[m.r] = @ \cup {j}], out |-> <<m>>]
+      [] Flavour = "service" -> [nd |-> [nd EXCEPT !.sigs[m.r] = @ \cup {j}], out |-> <<m>>]
 
-(* interceptDecryptionKeys for a keys message WITHOUT extra (made by the core handler) *)
-InterceptKeys(nd, j, m) ==
-    CASE Flavour = "core" -> [nd |-> nd, out |-> <<m>>]
+(* interceptDecryptionKeys for a keys message WITHOUT extra (made by the core handler for round r).
+   gnosis takes slot, tx pointer AND signatures from the CURRENT trigger, whatever round the keys
+   message belongs to; service selects the signatures by the identities hash of the message *)
+InterceptKeys(nd, j, r) ==
+    CASE Flavour = "core" -> [nd |-> nd, out |-> <<KeysMsg(j, r, 0, <<>>)>>]
       [] Flavour = "gnosis" ->
-            IF ~nd.cur THEN [nd |-> nd, out |-> <<>>]          \* no current trigger: dropped
-            ELSE IF Cardinality(nd.sigs) < T THEN [nd |-> nd, out |-> <<>>]
-            ELSE [nd |-> [nd EXCEPT !.ptr = "adv"], out |-> <<KeysMsg(j, FirstT(nd.sigs))>>]   \* advanceTxPointer
+            IF nd.cur = 0 THEN [nd |-> nd, out |-> <<>>]       \* no current trigger: dropped
+            ELSE IF Cardinality(nd.sigs[nd.cur]) < T THEN [nd |-> nd, out |-> <<>>]
+            ELSE [nd |-> [nd EXCEPT !.ptr = Len(Rounds[r]) - 1],                     \* advanceTxPointer
+                  out |-> <<KeysMsg(j, r, nd.cur, FirstT(nd.sigs[nd.cur]))>>]
       [] Flavour = "service" ->
-            IF Cardinality(nd.sigs) < T THEN [nd |-> nd, out |-> <<>>]
-            ELSE [nd |-> nd, out |-> <<KeysMsg(j, FirstT(nd.sigs))>>]
+            IF Cardinality(nd.sigs[r]) < T THEN [nd |-> nd, out |-> <<>>]
+            ELSE [nd |-> nd, out |-> <<KeysMsg(j, r, r, FirstT(nd.sigs[r]))>>]
 
 ----------------------------------------------------------------------------
 (* Handlers.  Each returns [nd, out]. *)
@@ -119,31 +142,33 @@ InterceptKeys(nd, j, m) ==
    signature; with T signatures and all keys of the message known, emit a keys message *)
 FlavourHandleShares(nd, j, m) ==
     IF Flavour = "core" THEN [nd |-> nd, out |-> <<>>]
-    ELSE LET nd1 == [nd EXCEPT !.sigs = @ \cup {m.from}] IN
-         IF Cardinality(nd1.sigs) >= T /\ \A id \in IdSet : nd1.keys[id] # "none"
-         THEN [nd |-> nd1, out |-> <<KeysMsg(j, FirstT(nd1.sigs))>>]
+    ELSE LET nd1 == [nd EXCEPT !.sigs[m.r] = @ \cup {m.from}] IN
+         IF Cardinality(nd1.sigs[m.r]) >= T /\ \A id \in IdsOf(m.r) : nd1.keys[id] # "none"
+         THEN [nd |-> nd1, out |-> <<KeysMsg(j, m.r, m.r, FirstT(nd1.sigs[m.r]))>>]
          ELSE [nd |-> nd1, out |-> <<>>]
+
+(* InsertDecryptionKeysMsg: one INSERT .. ON CONFLICT DO NOTHING per key of the list, ALL of them *)
+InsertKeysOf(keys, r) == [id \in IdSet |-> IF id \in IdsOf(r) /\ keys[id] = "none" THEN "good" ELSE keys[id]]
 
 (* core DecryptionKeyShareHandler.HandleMessage, wrapped by the middleware; the set abstraction
    of EpochKGPipe!HandleMsg for valid shares *)
 CoreHandleShares(nd, j, m) ==
-    LET nd1 == [nd EXCEPT !.shares = [id \in IdSet |-> @[id] \cup {m.from}]] IN
-    IF \A id \in IdSet : nd.keys[id] # "none" THEN [nd |-> nd1, out |-> <<>>]              \* allKeysExist
-    ELSE IF \E id \in IdSet : Cardinality(nd1.shares[id]) < T THEN [nd |-> nd1, out |-> <<>>]
-    ELSE LET nd2 == [nd1 EXCEPT !.keys = [id \in IdSet |-> IF @[id] = "none" THEN "good" ELSE @[id]]] IN
-         InterceptKeys(nd2, j, KeysMsg(j, <<>>))
+    LET nd1 == [nd EXCEPT !.shares = [id \in IdSet |-> IF id \in IdsOf(m.r) THEN @[id] \cup {m.from} ELSE @[id]]] IN
+    IF \A id \in IdsOf(m.r) : nd.keys[id] # "none" THEN [nd |-> nd1, out |-> <<>>]              \* allKeysExist
+    ELSE IF \E id \in IdsOf(m.r) : Cardinality(nd1.shares[id]) < T THEN [nd |-> nd1, out |-> <<>>]
+    ELSE InterceptKeys([nd1 EXCEPT !.keys = InsertKeysOf(@, m.r)], j, m.r)
 
 (* flavour DecryptionKeysHandler.HandleMessage: tx pointer (gnosis), signatures of the message *)
 FlavourHandleKeys(nd, j, m) ==
     CASE Flavour = "core" -> [nd |-> nd, out |-> <<>>]
       [] Flavour = "gnosis" ->
-            [nd |-> [nd EXCEPT !.ptr = "adv", !.sigs = @ \cup {m.signers[a] : a \in DOMAIN m.signers}], out |-> <<>>]
+            [nd |-> [nd EXCEPT !.ptr = Len(Rounds[m.r]) - 1,
+                               !.sigs[m.x] = @ \cup {m.signers[a] : a \in DOMAIN m.signers}], out |-> <<>>]
       [] Flavour = "service" ->
-            [nd |-> [nd EXCEPT !.sigs = @ \cup {m.signers[a] : a \in DOMAIN m.signers}], out |-> <<>>]
+            [nd |-> [nd EXCEPT !.sigs[m.r] = @ \cup {m.signers[a] : a \in DOMAIN m.signers}], out |-> <<>>]   \* keyed by the hash of the keys' identities
 
-(* core DecryptionKeyHandler.HandleMessage: INSERT .. ON CONFLICT DO NOTHING per key *)
-CoreHandleKeys(nd, j, m) ==
-    [nd |-> [nd EXCEPT !.keys = [id \in IdSet |-> IF @[id] = "none" THEN "good" ELSE @[id]]], out |-> <<>>]
+(* core DecryptionKeyHandler.HandleMessage: InsertDecryptionKeysMsg *)
+CoreHandleKeys(nd, j, m) == [nd |-> [nd EXCEPT !.keys = InsertKeysOf(@, m.r)], out |-> <<>>]
 
 (* P2PMessaging.Handle: the handlers of the message type in registration order *)
 HandleAll(nd, j, m) ==
@@ -153,13 +178,14 @@ HandleAll(nd, j, m) ==
     ELSE LET a == FlavourHandleKeys(nd, j, m)
              b == CoreHandleKeys(a.nd, j, m) IN [nd |-> b.nd, out |-> a.out \o b.out]
 
-(* KeyShareHandler.handleEvent for the trigger of this eon: ConstructDecryptionKeyShares (own
-   shares stored unless all exist already) and SendMessage through the middleware.  For gnosis
-   the keyper sets current_decryption_trigger before it emits the trigger (triggerDecryption). *)
-TriggerNode(nd, i) ==
-    LET nd0 == IF Flavour = "gnosis" THEN [nd EXCEPT !.cur = TRUE] ELSE nd IN
-    IF \A id \in IdSet : i \in nd0.shares[id] THEN [nd |-> nd0, out |-> <<>>]               \* ErrSharesAlreadySent
-    ELSE InterceptShares([nd0 EXCEPT !.shares = [id \in IdSet |-> @[id] \cup {i}]], i, SharesMsg(i))
+(* KeyShareHandler.handleEvent for the trigger of round r: ConstructDecryptionKeyShares (own shares
+   stored unless ALL of them exist already) and SendMessage through the middleware.  For gnosis the
+   keyper overwrites current_decryption_trigger before it emits the trigger (triggerDecryption). *)
+TriggerNode(nd, i, r) ==
+    LET nd0 == IF Flavour = "gnosis" THEN [nd EXCEPT !.cur = r] ELSE nd IN
+    IF \A id \in IdsOf(r) : i \in nd0.shares[id] THEN [nd |-> nd0, out |-> <<>>]               \* ErrSharesAlreadySent
+    ELSE InterceptShares([nd0 EXCEPT !.shares = [id \in IdSet |-> IF id \in IdsOf(r) THEN @[id] \cup {i} ELSE @[id]]],
+                         i, SharesMsg(i, r))
 
 ----------------------------------------------------------------------------
 (* Publishing: the node's own combined validator first (libp2p validates local publishes), then
@@ -187,6 +213,6 @@ P_Accepted(obs) ==
 (* no node ever stores a wrong key *)
 P_KeysGood(tabs) == \A i \in Nodes : \A id \in IdSet : tabs[i].keys[id] \in {"none", "good"}
 (* at quiescence (all planned triggers done, nothing in flight) every node holds the key of
-   every identity *)
+   every identity of every round (each round is triggered at >= T nodes) *)
 P_AllHaveKeys(tabs) == \A i \in Nodes : \A id \in IdSet : tabs[i].keys[id] = "good"
 =============================================================================
